@@ -472,6 +472,21 @@ func vrfC11ServerScript(h *vrfSrv, rng *rand.Rand, d *vrfC11Desc) {
 				// soon as it would double the shrunken window), so: fill, settle, look again.
 				var conn, sw, mf, room int64
 				sameWrite := false
+				// In a third of the probes the window is not driven to zero but to a small rest:
+				// credit batched below the refresh threshold then stays pending (a window at zero
+				// gets it released at once), and the excess frame is larger than that rest.
+				leave := int64(0)
+				if rng.IntN(3) == 0 {
+					leave = vsrvPick[int64](rng, 1, 50, 150, 3000)
+					if read, _, _, _, _ := st.app.snapshot(); read < accepted && rng.IntN(4) != 0 {
+						// a small read first: its refund (below 4096 and below the rest) stays batched
+						leave = vsrvPick[int64](rng, 150, 3000)
+						st.app.send(vrfCmd{'r', vsrvPick(rng, 1, 10, 100)})
+						if !h.quiescent() {
+							return
+						}
+					}
+				}
 				var smp vrfSrvSample
 				for i := 0; i < 8; i++ {
 					conn, sw, mf = h.view(st.id)
@@ -480,30 +495,34 @@ func vrfC11ServerScript(h *vrfSrv, rng *rand.Rand, d *vrfC11Desc) {
 					if smp, ok = h.sample(); !ok {
 						return
 					}
-					if room == 0 {
+					if room <= leave {
 						break
 					}
 					// With no credit batched anywhere and no padding, nothing can be released by
 					// the fill: then the excess frame may travel in the same write.
-					if smp.unsent == 0 && smp.stUnsent[st.id] == 0 && rng.IntN(2) == 0 {
+					if leave == 0 && smp.unsent == 0 && smp.stUnsent[st.id] == 0 && rng.IntN(2) == 0 {
 						sameWrite = true
 						break
 					}
-					pre := vrfSplitFill(rng, room, mf)
+					pre := vrfSplitFill(rng, room-leave, mf)
 					for _, f := range pre {
 						accepted += int64(f[0])
 					}
 					sendFrames(st, pre)
-					d.note("top-up s=%d -> %d", st.id, room)
+					d.note("top-up s=%d -> %d of %d", st.id, room-leave, room)
 					if !h.quiescent() {
 						return
 					}
 				}
-				if room > 0 && !sameWrite {
-					d.note("window of s=%d does not settle at zero: no overflow", st.id)
+				if (room > leave && !sameWrite) || room+1 > mf {
+					d.note("window of s=%d does not settle (rest %d): no overflow", st.id, room)
 				} else {
 					avail, unsent := int64(smp.avail), int64(smp.unsent)
 					n, pad := vrfOverflowFrame(rng, mf, p < probes-1)
+					if room > 0 && !sameWrite { // the excess frame must be larger than the rest of the window
+						n, pad = int(min(room+1+rng.Int64N(64), mf)), -1
+						h.R.Event("server_overflow_from_nonzero_window", 1)
+					}
 					fc := int64(n)
 					if pad >= 0 {
 						fc += 1 + int64(pad)
@@ -538,7 +557,14 @@ func vrfC11ServerScript(h *vrfSrv, rng *rand.Rand, d *vrfC11Desc) {
 						viol(key, "the peer's window was exhausted (connection %d, stream %d; %d in-window frames in the same write) and it sent %d more flow-controlled bytes on stream %d; no RST_STREAM(FLOW_CONTROL_ERROR) on the stream and no GOAWAY(FLOW_CONTROL_ERROR) followed (server's belief of the connection window before: avail=%d unsent=%d)", conn, sw, len(pre), fc, st.id, avail, unsent)
 					} else {
 						d.overflows++
-						if unsent > 0 || smp.stUnsent[st.id] > 0 {
+						var pending int32 // credit batched on the window(s) the excess frame exceeds
+						if sw <= conn {
+							pending += smp.stUnsent[st.id]
+						}
+						if conn <= sw {
+							pending += smp.unsent
+						}
+						if pending > 0 {
 							d.batchedAtOverflow++
 						}
 						if ce {
@@ -554,7 +580,11 @@ func vrfC11ServerScript(h *vrfSrv, rng *rand.Rand, d *vrfC11Desc) {
 					if h.dead {
 						return
 					}
-					if fc > conn-room { // room: what the same-write prefill used up (0 otherwise)
+					used := int64(0) // what the same-write prefill used up
+					if sameWrite {
+						used = room
+					}
+					if fc > conn-used {
 						endAfter = true // the peer has broken the connection's flow control: nothing after this is specified
 					}
 				}
@@ -766,34 +796,49 @@ func vrfC11ClientScript(h *vrfCli, rng *rand.Rand, d *vrfC11Desc) {
 		}
 		var conn, sw, mf, room int64
 		sameWrite := false
+		leave := int64(0) // see the server role
+		if rng.IntN(2) == 0 {
+			leave = vsrvPick[int64](rng, 1, 50, 150, 3000)
+			if read, _, _, _, _ := rq.app.snapshot(); read < accepted && rng.IntN(4) != 0 {
+				leave = vsrvPick[int64](rng, 150, 3000)
+				rq.app.send(vrfCmd{'r', vsrvPick(rng, 1, 10, 100)})
+				if !h.settle() {
+					return
+				}
+			}
+		}
 		var smp vrfCliSample
 		for i := 0; i < 8; i++ {
 			conn, sw, mf = h.view(rq.id)
 			room = max(min(conn, sw), 0)
 			smp = h.sample()
-			if room == 0 {
+			if room <= leave {
 				break
 			}
-			if smp.unsent == 0 && smp.stUnsent[rq.id] == 0 && rng.IntN(2) == 0 {
+			if leave == 0 && smp.unsent == 0 && smp.stUnsent[rq.id] == 0 && rng.IntN(2) == 0 {
 				sameWrite = true
 				break
 			}
-			pre := vrfSplitFill(rng, room, mf)
+			pre := vrfSplitFill(rng, room-leave, mf)
 			for _, f := range pre {
 				accepted += int64(f[0])
 			}
 			sendFrames(rq, pre)
-			d.note("top-up s=%d -> %d", rq.id, room)
+			d.note("top-up s=%d -> %d of %d", rq.id, room-leave, room)
 			if !h.settle() {
 				viol("in-window-data-killed-connection", "the peer topped its window up with %d flow-controlled bytes on stream %d (connection %d, stream %d) and the client ended the connection (read loop error: %v)", room, rq.id, conn, sw, h.CC.readerErr)
 				return
 			}
 		}
-		if room > 0 && !sameWrite {
-			d.note("window of s=%d does not settle at zero: no overflow", rq.id)
+		if (room > leave && !sameWrite) || room+1 > mf {
+			d.note("window of s=%d does not settle (rest %d): no overflow", rq.id, room)
 			return
 		}
 		n, pad := vrfOverflowFrame(rng, mf, false)
+		if room > 0 && !sameWrite {
+			n, pad = int(min(room+1+rng.Int64N(64), mf)), -1
+			h.R.Event("client_overflow_from_nonzero_window", 1)
+		}
 		fc := int64(n)
 		if pad >= 0 {
 			fc += 1 + int64(pad)
@@ -821,7 +866,14 @@ func vrfC11ClientScript(h *vrfCli, rng *rand.Rand, d *vrfC11Desc) {
 			viol("overflow-not-rejected:"+which+"-window", "the peer's window was exhausted (connection %d, stream %d; %d in-window frames in the same write) and it sent %d more flow-controlled bytes on stream %d; the client neither reset the stream nor failed the connection with FLOW_CONTROL_ERROR (connection closed by client: %v, read loop error: %v; client's belief before: avail=%d unsent=%d)", conn, sw, len(pre), fc, rq.id, sc.NC.clientClosed(), h.CC.readerErr, smp.avail, smp.unsent)
 		} else {
 			d.overflows++
-			if smp.unsent > 0 || smp.stUnsent[rq.id] > 0 {
+			var pending int32
+			if sw <= conn {
+				pending += smp.stUnsent[rq.id]
+			}
+			if conn <= sw {
+				pending += smp.unsent
+			}
+			if pending > 0 {
 				d.batchedAtOverflow++
 			}
 			h.R.Event("client_overflow_of_"+which+"_window", 1)
@@ -863,7 +915,8 @@ func TestVerif_C11(t *testing.T) {
 	for _, role := range []string{"server", "client"} {
 		r.Require(role+"_exact_fills_accepted", q(400, 4000))
 		r.Require(role+"_overflows_rejected", q(150, 1500))
-		r.Require(role+"_overflows_with_batched_credit_pending", q(30, 300))
+		r.Require(role+"_overflows_with_batched_credit_pending", q(15, 100))
+		r.Require(role+"_overflow_from_nonzero_window", q(30, 200))
 		r.Require(role+"_fills_after_window_update", q(150, 1500))
 		r.Require(role+"_fills_racing_with_reads", q(40, 400))
 		r.Require(role+"_overflow_of_stream_window", q(40, 400))
